@@ -3,6 +3,8 @@
 package node
 
 import (
+	"time"
+
 	"github.com/youzan/ZanRedisDB/common"
 	"github.com/youzan/ZanRedisDB/rockredis"
 	"vsym"
@@ -39,7 +41,9 @@ func c07Open() *c07Replica {
 	return &c07Replica{sm: sm, w: w, vdb: vdb, done: vdb.Close}
 }
 
-const c07T0 = int64(1700000000) * 1e9
+// T0: log time of the pre-state. Symbolically a constant; natively the current second, so that the two
+// replicas can really run before and after the expiry instant T0+2s (replica B sleeps past it).
+var c07T0 = int64(1700000000) * 1e9
 
 func (r *c07Replica) prestate() {
 	db := r.sm.store
@@ -137,15 +141,19 @@ func Verif_C07_ApplyDeterminism() {
 	a, b := c07Open(), c07Open()
 	defer a.done()
 	defer b.done()
+	if !vsym.Symbolic() {
+		c07T0 = time.Now().Unix() * 1e9
+	}
 	vsym.FreezeClock(c07T0)
 	a.prestate()
 	b.prestate()
 	c1, c2 := c07Command("cmd1"), c07Command("cmd2")
 	// log timestamps: anywhere in the 4 seconds after the pre-state (the expiry instant T0+2s included), non-decreasing
-	ts1 := vsym.I64("ts1")
-	vsym.Assume(ts1 >= c07T0 && ts1 < c07T0+int64(4e9))
-	ts2 := vsym.I64("ts2")
-	vsym.Assume(ts2 >= ts1 && ts2 < c07T0+int64(8e9))
+	d1 := vsym.I64("d1")
+	vsym.Assume(d1 >= 0 && d1 < int64(4e9))
+	d2 := vsym.I64("d2")
+	vsym.Assume(d2 >= d1 && d2 < int64(8e9))
+	ts1, ts2 := c07T0+d1, c07T0+d2
 	e1, e2 := c07Entry(1, ts1, c1), c07Entry(2, ts2, c2)
 	// replica A: clock far before every expiry, live apply, one apply batch per entry
 	vsym.FreezeClock(c07T0 - int64(3600e9))
@@ -159,6 +167,11 @@ func Verif_C07_ApplyDeterminism() {
 	ba.CommitBatch()
 	// replica B: clock far after every expiry, replay, both entries in one apply batch
 	vsym.FreezeClock(c07T0 + int64(86400e9))
+	if !vsym.Symbolic() {
+		for time.Now().UnixNano() < c07T0+int64(3200e6) {
+			time.Sleep(50 * time.Millisecond)
+		}
+	}
 	replay := vsym.Choose("replay", 2) == 1
 	bb := b.sm.GetBatchOperator()
 	_, err = b.sm.ApplyRaftRequest(replay, bb, e1, 1, 1, nil)
